@@ -8,7 +8,37 @@ import (
 	"go.uber.org/zap"
 )
 
+// watchRetryInterval is the pause before a failed or closed watch is set up again.
+const watchRetryInterval = 500 * time.Millisecond
+
+// watchLoop keeps a watch on the leadership key for as long as the election runs.
+// When the watch cannot be established or its channel is closed, the instance
+// must not give up for good: it falls back to the existence check and sets the
+// watch up again after watchRetryInterval, until ctx is cancelled.
 func (e *kvElection) watchLoop(ctx context.Context) {
+	for {
+		e.watchUntilClosed(ctx)
+
+		if ctx.Err() != nil {
+			return
+		}
+
+		// The key may have been deleted (or may expire) while nobody is watching.
+		if !e.IsLeader() {
+			e.checkKeyAndReelect(ctx)
+		}
+
+		select {
+		case <-ctx.Done():
+			return
+		case <-time.After(watchRetryInterval):
+		}
+	}
+}
+
+// watchUntilClosed runs one watch: it returns when ctx is cancelled, when the
+// watch cannot be established, or when its updates channel is closed.
+func (e *kvElection) watchUntilClosed(ctx context.Context) {
 	watcher, err := e.kv.Watch(e.key)
 	if err != nil {
 		log := e.getLogger()
@@ -42,15 +72,8 @@ func (e *kvElection) watchLoop(ctx context.Context) {
 				log.Debug("watch_closed",
 					e.logWithContext(ctx)...,
 				)
-				// When watcher closes, check if key still exists
-				// If not, trigger re-election
-				if !e.IsLeader() {
-					e.wg.Add(1)
-					go func() {
-						defer e.wg.Done()
-						e.checkKeyAndReelect(ctx)
-					}()
-				}
+				// watchLoop checks whether the key still exists and
+				// re-establishes the watch.
 				return
 			}
 			e.handleWatchEvent(entry)
